@@ -619,6 +619,30 @@ def check_dynamic_element_fields(l, rng, out, tbv, size):
     from amaranth.hdl import Signal, Value, Module
     from amaranth.sim import Simulator
     todo = []
+    # arrays of plain signed/unsigned elements read through a *signal* index: value and signedness of the element
+    for apath, arr, aoff in array_nodes(l):
+        n, ew = arr[2], lsize(arr[1])
+        if n >= 1 and ew > 0 and is_leaf(arr[1]) and arr[1][0] in ("u", "s"):
+            from amaranth.hdl import Const as _C
+            base = view_path(tbv, apath) if apath else tbv
+            for i in range(n):
+                raw = rng.getrandbits(size) | (((1 << ew) - 1) << (aoff + i * ew) if rng.random() < 0.5 else 0)
+                elem = Value.cast(base[_C(i, range(max(n, 2)))])
+                exp = leaf_value(arr[1], (raw >> (aoff + i * ew)) & ((1 << ew) - 1))
+                m0 = Module()
+                sim0 = Simulator(m0)
+                res = []
+
+                async def tb0(ctx, elem=elem, raw=raw):
+                    ctx.set(Value.cast(tbv), raw)
+                    res.append(ctx.get(elem))
+                sim0.add_testbench(tb0)
+                sim0.run()
+                out["evaluations"] += 1
+                out["hist"]["dynamic-index-leaf-element-reads"] = out["hist"].get("dynamic-index-leaf-element-reads", 0) + 1
+                if elem.shape().signed != (arr[1][0] == "s") or res[0] != exp:
+                    raise V("dynamic-index-leaf-element-read", path=list(apath) + ["[idx]"], index=i, raw=raw, got=res[0],
+                            expected=exp, shape=repr(elem.shape()))
     for apath, arr, aoff in array_nodes(l):
         n, ew = arr[2], lsize(arr[1])
         if n < 2 or ew == 0 or is_leaf(arr[1]):
